@@ -120,8 +120,11 @@ fn rand_paint<'a>(r: &mut Rng, pat: &'a Pixmap) -> Paint<'a> {
     paint
 }
 
-fn rand_stroke(r: &mut Rng) -> Stroke {
-    let width = match r.below(8) {
+/// (the dash count is capped at a million by design and every dash of a huge round-capped stroke covers the whole
+/// target: that combination is finite but takes minutes, so dashes come with moderate widths and, on large targets,
+/// without sub-pixel intervals)
+fn rand_stroke(r: &mut Rng, big_target: bool) -> Stroke {
+    let mut width = match r.below(8) {
         0 => 0.0,
         1 => 0.3,
         2 => 1.0,
@@ -133,7 +136,11 @@ fn rand_stroke(r: &mut Rng) -> Stroke {
     };
     let dash = if r.below(4) == 0 {
         let n = 2 * (1 + r.below(3)) as usize;
-        StrokeDash::new((0..n).map(|_| [0.0f32, 0.5, 3.0, 10.0, 1e-3][r.below(5) as usize]).collect(), r.coord(4, 1))
+        let kinds = if big_target { 4 } else { 5 };
+        if width > 30.0 {
+            width = 30.0;
+        }
+        StrokeDash::new((0..n).map(|_| [0.0f32, 0.5, 3.0, 10.0, 1e-3][r.below(kinds) as usize]).collect(), r.coord(4, 1))
     } else {
         None
     };
@@ -188,7 +195,11 @@ fn one_case(seed: u64, family: u32) -> i128 {
             }
             1 => {
                 if let Some(p) = rand_path(&mut r, w, h, family) {
-                    pm.stroke_path(&p, &paint, &rand_stroke(&mut r), ts, mask.as_ref());
+                    let st = rand_stroke(&mut r, w * h > 4096);
+                    if std::env::var("VERIF_FUZZ_DEBUG").is_ok() {
+                        eprintln!("stroke: {:?}", st);
+                    }
+                    pm.stroke_path(&p, &paint, &st, ts, mask.as_ref());
                 }
             }
             2 => {
@@ -210,7 +221,7 @@ fn one_case(seed: u64, family: u32) -> i128 {
             }
             5 => {
                 if let Some(p) = rand_path(&mut r, w, h, family) {
-                    let st = rand_stroke(&mut r);
+                    let st = rand_stroke(&mut r, w * h > 4096);
                     let res = [1.0f32, 0.1, 10.0, 1e-3, 1e3][r.below(5) as usize];
                     if let Some(s) = p.stroke(&st, res) {
                         let _ = s.compute_tight_bounds();
